@@ -74,7 +74,7 @@ PUNCT_TEMPLATES = ("%s: %s", "%s:", "%s (in %s)", "%s, %s; %s", "%s - %s", "%s/%
 STRODD = ["it's", "100%", "{x}", "#tag", "a:b", "a=b", "a,b", "(x)", "[x]", "x;y", " lead", "trail ", "a|b", "True", "5", "-3",
           "1.5"]
 # (a double quote, a backslash or a backtick inside a str default are genuine defects of the docstring layer: probe only)
-STRBAD = ['say "hi"', "a\\b", "`tick`"]
+STRBAD = ['say "hi"', '"hi" he said', '3"', '5" nail', "a\\b", "`tick`"]
 NESTED_TYPES = ["Optional[List[int]]", "Union[int, str, float]", "List[Optional[str]]", "Dict[str, int]", "Tuple[int, str]",
                 "Optional[Union[int, str]]", "List[List[int]]", "Optional[Literal['a', 'b']]", "Literal['only']",
                 "Literal['a b', 'c']"]
